@@ -148,6 +148,17 @@ CLAIMED.update({
    design="§7 C07", technique="contract-based deductive verification, Warn-site sweep (call-site obligations; SMT + syntactic decisions on constant formats)"),
 })
 
+CLAIMED.update({
+ "C02": dict(
+   text="Determinism by elimination of its sources, decided on the SSA of the current tree: (1) one obligation per range-over-map loop in the analysis packages and both CLIs - the loop body emits "
+        "nothing, stores only into locations keyed by the iteration element or into objects it allocated, and any list it builds is sorted before use (or only feeds an error message); an emission "
+        "guarded by equality of the iteration value with a loop-invariant value is accepted under a listed injectivity assumption; (2) no call of clocks, random sources or process identity from "
+        "analysis code; (3) no go statement in the analysis packages (the CLI's goroutines are C04: disjoint writes into per-checker slots, printed in slot order by checkFile's contract, C16). "
+        "These are finite syntactic obligations decided by the generator itself, not by a solver; byte-identical output of the whole program additionally depends on go/packages, go/types and the rule "
+        "engine, which are assumed deterministic. One defect (dupImport reported while ranging over a map) was found this way, demonstrated on the real code and fixed.",
+   design="§7 C02", technique="contract-based verification: generator-decided order-independence obligations on every map range + deny-list scan (no solver)"),
+})
+
 NA_REASON_PENDING = "check not built yet in this round (planned, DESIGN §7); not claimed until its obligations discharge"
 NOT_APPLICABLE = {
  "C11": "no contract within reach can state equality of Go-regexp match behaviour between a pattern and the string printed from a third-party parse tree (DESIGN §8)",
